@@ -1,4 +1,5 @@
 import CobraModel.Lemmas.Formulations
+import CobraModel.Lemmas.AuxProb
 /-!
 # C05 — flux variability analysis reports the true flux ranges
 
@@ -53,5 +54,32 @@ def demo : LP := { n := 2, vb := [⟨some 0, some 4⟩, ⟨some 0, some 10⟩],
 example : demo.checkOpt [4, 4] [-1] = true := by decide +kernel
 example : (demo.fvaStep 2 0 true).checkOpt [4, 4] [0, 0] = true := by decide +kernel
 example : (demo.fvaStep 2 0 false).checkOpt [2, 2] [-1, -1] = true := by decide +kernel
+
+
+/-! ### the whole problem `_fva_step` solves
+
+`AuxM.Net.fvaStep n t cap i sense` is the complete solver problem at the moment `_fva_step` asks for a solve: the flux-balance problem, the
+variable `fva_old_objective` (bounded by `t = fraction × optimum` on the side of the model's direction) tied to the objective by
+`fva_old_objective_constraint`, with `pfba_factor` the variable `flux_sum` (at most `cap`) tied to `Σ (forward + reverse)`, objective
+`forward_i − reverse_i`, direction `sense`.  Compared entry by entry with the raw GLPK problem of every step (`harness/auxcorr.py`). -/
+open AuxM in
+/-- **FVA, whole problem**: an optimum of the step problem for reaction `i` is a flux vector of the region (steady state, bounds, objective at
+or beyond `t`, total flux at most the cap) whose `i`-th flux is the largest (sense max) / smallest (sense min) over the region; the value
+the step reports is that flux -/
+theorem fva_problem_optimum (n : Net) (hp : n.Proper) (t : Rat) (cap : Option Rat) (i : Nat) (mx : Bool) (x : V → Rat)
+    (h : (n.fvaStep t cap i mx).IsOpt x) :
+    n.Region t cap (netOf x) ∧ (n.fvaStep t cap i mx).value x = netOf x i ∧
+    ∀ v, n.Region t cap v → if mx then v i ≤ netOf x i else netOf x i ≤ v i := fva_optimum n hp t cap i mx x h
+
+open AuxM in
+/-- … and every flux vector of the region is the projection of a feasible point of the step problem, with its `i`-th flux as value -/
+theorem fva_problem_reaches_region (n : Net) (t : Rat) (cap : Option Rat) (i : Nat) (mx : Bool) (v : Nat → Rat) (hv : n.Region t cap v) :
+    (n.fvaStep t cap i mx).Feasible (fvaPoint n v) ∧ netOf (fvaPoint n v) = v ∧ (n.fvaStep t cap i mx).value (fvaPoint n v) = v i :=
+  fva_complete n t cap i mx v hv
+
+/-- non-vacuity: the region of the demo model at threshold 1 contains `(1, 1)` -/
+example : AuxM.demoNet.Region 1 none AuxM.demoV :=
+  ⟨(AuxM.demoNet_feasible _).2 (by simp only [AuxM.demoV]; norm_num),
+   by unfold AuxM.Net.threshold; rw [AuxM.demoNet_objVal]; simp [AuxM.demoV, AuxM.demoNet], by simp⟩
 
 end C05
